@@ -141,7 +141,8 @@ class Ctx:
         self.obligations = []   # dicts
         self.notes = []
         self.undo = []          # monkey patches to revert
-        self.extra_lemmas = []  # harness supplied facts (contracts), always added
+        self.extra_lemmas = []  # harness supplied facts (contracts)
+        self._fact_syms = []
         self.domain = []        # automatically assumed denominators != 0
         o = dict(feas_timeout=2000, timeout=60000, abstract_k=10 ** 9, max_tier=4,
                  auto_div_domain=True, auto_fn_domain=True, tol=1e-8)
@@ -263,11 +264,11 @@ class Ctx:
         return out
 
     # ---------------------------------------------------------------- solver
-    def check(self, *extra, tier=None, timeout=None, use_pc=True, min_tier=1):
+    def check(self, *extra, tier=None, timeout=None, use_pc=True, min_tier=1, use_facts=True):
         """Satisfiability of pc + extra with lemma tiers; returns 'sat' | 'unsat' | 'unknown'."""
         tier = tier or self.o['max_tier']
         t0 = time.time()
-        fs = (list(self.pc) if use_pc else []) + list(self.extra_lemmas) + list(extra)
+        fs = (list(self.pc) if use_pc else []) + (self._relevant_facts(list(extra) + (list(self.pc) if use_pc else [])) if use_facts else []) + list(extra)
         res = 'sat'
         last_tier = 0
         nlem_prev = -1
@@ -353,10 +354,53 @@ class Ctx:
             raise Infeasible()
 
     def fact(self, cond):
-        """Contract fact: added to every later query (not checked for feasibility)."""
+        """Contract fact about fresh contract symbols (e.g. `A X = B`, `grad chi2(p) = 0`): added to every later query that
+        mentions one of its contract symbols (transitively); not checked for feasibility."""
         if self.mode == 'conc':
             return
-        self.extra_lemmas.append(cond.t if isinstance(cond, SB) else cond)
+        t = cond.t if isinstance(cond, SB) else cond
+        self.extra_lemmas.append(t)
+        self._fact_syms.append(self._contract_syms([t]))
+
+    CONTRACT_STEMS = ('fitp!', 'solve!', 'odr!', 'root!', 'lstsq!', 'inv_c!', 'eig!', 'chol!')
+
+    def _contract_syms(self, fs):
+        seen, out, st = set(), set(), list(fs)
+        while st:
+            e = st.pop()
+            i = e.get_id()
+            if i in seen:
+                continue
+            seen.add(i)
+            if z3.is_const(e) and e.decl().kind() == z3.Z3_OP_UNINTERPRETED:
+                n = e.decl().name()
+                if n.startswith(self.CONTRACT_STEMS):
+                    out.add(n)
+                elif n in self.divs:
+                    st.extend(self.divs[n][:2])
+                elif n in self.opq:
+                    st.extend(self.opq[n][1])
+                elif n in self.absd:
+                    st.append(self.absd[n][0])
+            else:
+                st.extend(e.children())
+        return out
+
+    def _relevant_facts(self, fs):
+        if not self.extra_lemmas:
+            return []
+        cur = self._contract_syms(fs)
+        chosen = [False] * len(self.extra_lemmas)
+        changed = True
+        while changed:
+            changed = False
+            for k, syms in enumerate(self._fact_syms):
+                if not chosen[k] and (not syms or syms & cur):
+                    chosen[k] = True
+                    if syms - cur:
+                        cur |= syms
+                        changed = True
+        return [f for f, c in zip(self.extra_lemmas, chosen) if c]
 
     def branch(self, cond):
         cond = z3.simplify(cond)
@@ -371,6 +415,17 @@ class Ctx:
             return d
         ft_ = self.o['feas_timeout']
         ftier = self.o.get('feas_tier', 2)
+        # a condition that is valid / unsatisfiable on its own needs no path condition (keeps heavy contexts out of trivial tests)
+        if tsize(cond, 400) <= 400:
+            for val, f in ((True, z3.Not(cond)), (False, cond)):
+                sv = z3.Solver()
+                sv.set('timeout', 300)
+                sv.add(f)
+                if str(sv.check()) == 'unsat':
+                    self.decisions.append(val)
+                    self.pos += 1
+                    self.pc.append(cond if val else z3.Not(cond))
+                    return val
         rt = self.check(cond, tier=ftier, timeout=ft_)
         rf = self.check(z3.Not(cond), tier=ftier, timeout=ft_)
         if rt == 'unknown' or rf == 'unknown':
@@ -446,7 +501,7 @@ class Ctx:
             d['smt'] = _short(z3.Not(t))
         return r == 'unsat'
 
-    def prove_eq(self, a, b, label):
+    def prove_eq(self, a, b, label, use_facts=True):
         """a == b on this path; a, b numbers (SV / float / int / Fraction) or arrays of them."""
         if isinstance(a, (list, tuple, _np.ndarray)) or isinstance(b, (list, tuple, _np.ndarray)):
             aa = _np.asarray(a, dtype=object)
@@ -459,7 +514,7 @@ class Ctx:
                 return False
             ok = True
             for idx in _np.ndindex(aa.shape):
-                ok &= self.prove_eq(aa[idx], bb[idx], '%s%s' % (label, list(idx)))
+                ok &= self.prove_eq(aa[idx], bb[idx], '%s%s' % (label, list(idx)), use_facts=use_facts)
             return ok
         if self.mode == 'conc':
             return self._conc_eq(a, b, label)
@@ -496,7 +551,9 @@ class Ctx:
             ok = abs(ca - cb) <= Fraction(1, 10 ** 12) * (abs(ca) + abs(cb))
             self._record(label, 'ground-ok' if ok else 'ground-fail', ground=True, detail='%s vs %s' % (float(ca), float(cb)))
             return ok
-        r = self.check(goal)
+        r = self.check(goal, use_facts=use_facts)
+        if r != 'unsat' and not use_facts:
+            r = self.check(goal)      # an identity that was expected to hold without the contract facts: retry with them
         d = self._record(label, r, tier=self.last_tier, t=round(time.time() - t0, 3))
         if r == 'sat':
             d['model'] = self.model_values()
@@ -980,6 +1037,47 @@ def opaque(fn, *args):
     return SV(c.memo[key])
 
 
+def _is_var(t):
+    return z3.is_const(t) and t.decl().kind() == z3.Z3_OP_UNINTERPRETED
+
+
+def _reciprocal(c, den):
+    """1/den as a product of reciprocal symbols when den is a (numeral times a) product of plain variables, else None"""
+    if not c.o.get('reciprocal_symbols', True):
+        return None
+    factors = []
+    if _is_var(den):
+        factors = [den]
+    elif z3.is_app(den) and den.decl().kind() == z3.Z3_OP_MUL:
+        for ch in den.children():
+            if _is_var(ch) or const_of(ch) is not None:
+                factors.append(ch)
+            else:
+                return None
+    else:
+        return None
+    out = None
+    for f in factors:
+        cv = const_of(f)
+        if cv is not None:
+            if cv == 0:
+                raise ZeroDivisionError('division by zero')
+            t = RV(1 / cv)
+        else:
+            key = ('inv', f.get_id())
+            if key not in c.memo:
+                q = c.newvar('inv')
+                c.memo[key] = q
+                c.divs[q.decl().name()] = (z3.RealVal(1), f, q)
+                c.keep.append(f)
+                if c.o['auto_div_domain']:
+                    c.pc.append(f != 0)
+                    c.domain.append(f)
+            t = c.memo[key]
+        out = t if out is None else out * t
+    return out
+
+
 def sdiv(num, den):
     c = Ctx.cur
     cden = canon(den)
@@ -993,6 +1091,10 @@ def sdiv(num, den):
         if c.o['auto_div_domain']:
             c.pc.append(z3.simplify(den) != 0)
         return SV(z3.RealVal(0))
+    inv = _reciprocal(c, cden)
+    if inv is not None:
+        # denominator is a product of plain symbols: x / d = x * inv_d with one reciprocal symbol per variable
+        return SV(num * inv, tsize(num, 50) + 3)
     key = ('div', cnum.get_id(), cden.get_id())
     if key not in c.memo:
         num, den = z3.simplify(num), z3.simplify(den)
